@@ -535,6 +535,61 @@ pub fn menu(seed: &Seed, with_unsealed: bool) -> Vec<Mutation> {
                 m.push(Mutation::XmlRaw { bytes: doc.into_bytes(), what: "text of the first guid element split into 300000 pieces by comments".into() });
             }
         }
+        // counter bombs: many DISTINCT names (a parser that compares every new name with all earlier
+        // ones needs quadratic time, one that also copies the inherited set per element cubic time)
+        if with_unsealed {
+            if let Some(root_at) = xml.find("<e57Root").or_else(|| xml.find(":e57Root").and_then(|p| xml[..p].rfind('<'))) {
+                if let Some(tag_end) = crate::mutate::start_tag_end(&xml, root_at) {
+                    for k in [500usize, 4_000, 30_000] {
+                        // k namespace declarations on the root element, k children with one of their own
+                        let mut doc = String::with_capacity(xml.len() + 40 * k);
+                        doc.push_str(&xml[..tag_end]);
+                        for i in 0..k {
+                            doc.push_str(&format!(" xmlns:n{i}=\"u\""));
+                        }
+                        doc.push('>');
+                        doc.push_str(&"<x xmlns:p=\"q\"/>".repeat(k));
+                        doc.push_str(&xml[tag_end + 1..]);
+                        m.push(Mutation::XmlRaw { bytes: doc.into_bytes(), what: format!("{k} namespace declarations on the root element and {k} children declaring one more") });
+                    }
+                    for k in [150_000usize, 600_000] {
+                        let mut doc = String::with_capacity(xml.len() + 16 * k);
+                        doc.push_str(&xml[..tag_end]);
+                        for i in 0..k {
+                            doc.push_str(&format!(" a{i}=\"\""));
+                        }
+                        doc.push_str(&xml[tag_end..]);
+                        m.push(Mutation::XmlRaw { bytes: doc.into_bytes(), what: format!("{k} distinct attributes on the root element") });
+                    }
+                    // many elements that each carry many distinct attributes (1000 x 1000, about 8 MB)
+                    {
+                        let mut attrs = String::new();
+                        for i in 0..1000 {
+                            attrs.push_str(&format!(" a{i}=\"\""));
+                        }
+                        let one = format!("<v:y xmlns:v=\"urn:v\"{attrs}/>");
+                        let mut doc = String::with_capacity(xml.len() + one.len() * 1000);
+                        doc.push_str(&xml[..tag_end + 1]);
+                        doc.push_str(&one.repeat(1000));
+                        doc.push_str(&xml[tag_end + 1..]);
+                        m.push(Mutation::XmlRaw { bytes: doc.into_bytes(), what: "1000 foreign elements with 1000 distinct attributes each".into() });
+                    }
+                    // nested accumulation: 100 levels of foreign elements with 5 declarations each, the
+                    // innermost holding 500 children with a declaration of their own (1000 in all)
+                    let mut nest = String::new();
+                    for d in 0..100 {
+                        nest.push_str(&format!("<v:w xmlns:v=\"urn:v\" xmlns:a{d}=\"u\" xmlns:b{d}=\"u\" xmlns:c{d}=\"u\" xmlns:d{d}=\"u\">"));
+                    }
+                    nest.push_str(&"<v:x xmlns:p=\"q\"/>".repeat(500));
+                    nest.push_str(&"</v:w>".repeat(100));
+                    let mut doc = String::new();
+                    doc.push_str(&xml[..tag_end + 1]);
+                    doc.push_str(&nest);
+                    doc.push_str(&xml[tag_end + 1..]);
+                    m.push(Mutation::XmlRaw { bytes: doc.into_bytes(), what: "100 nested foreign elements with 5 namespace declarations each around 500 children declaring one more".into() });
+                }
+            }
+        }
         // repetition bombs: 2 MiB of one unterminated / unbalanced token (anything that rescans the
         // rest of the document per token needs time quadratic in the input size)
         if with_unsealed {
@@ -696,4 +751,22 @@ fn rebuild_with_xml(log: &[u8], xs: usize, xe: usize, nx: &[u8]) -> Option<Vec<u
     nl[16..24].copy_from_slice(&((pages * 1024) as u64).to_le_bytes());
     nl[32..40].copy_from_slice(&(nx.len() as u64).to_le_bytes());
     Some(page::seal(&nl))
+}
+
+
+/// Byte offset of the '>' that ends the start tag beginning at `at` (quoted attribute values may contain '>').
+pub fn start_tag_end(xml: &str, at: usize) -> Option<usize> {
+    let b = xml.as_bytes();
+    let mut quote: Option<u8> = None;
+    let mut j = at + 1;
+    while j < b.len() {
+        match (quote, b[j]) {
+            (None, b'"') | (None, b'\'') => quote = Some(b[j]),
+            (Some(q), c) if q == c => quote = None,
+            (None, b'>') => return Some(if j > 0 && b[j - 1] == b'/' { j - 1 } else { j }),
+            _ => {}
+        }
+        j += 1;
+    }
+    None
 }
